@@ -264,6 +264,29 @@ func TestProp(t *testing.T) {
 			}
 		})
 	}
+	// every known box type with a short payload that ends 0..3 bytes before the end of the reader's first 4 KiB
+	if complete && os.Getenv("VERIF_SKIP_ENUM") == "" {
+		idx := 0
+		lens, gaps := []int{0, 1, 2, 3, 4, 5, 6, 7, 8, 12, 16}, []int{0, 1, 2, 3}
+		if rec.Env.Thorough() {
+			lens, gaps = []int{0, 1, 2, 3, 4, 5, 6, 7, 8, 9, 10, 11, 12, 13, 14, 15, 16, 20, 24, 30}, []int{0, 1, 2, 3, 4, 5, 6, 7, 8, 12, 16, 20}
+		}
+		gen.SmallBoxFilesAtEdge(lens, gaps, func(name, kind string, data []byte) {
+			idx++
+			if !complete || idx%rec.Env.Shards != rec.Env.Shard {
+				return
+			}
+			for _, entry := range []string{"Decode", "BMFF"} {
+				c := Case{Req: worker.Req{Entry: entry, Input: data, K: 4}, Origin: "small-box-at-buffer-end:" + name}
+				if f := eval(c); f != nil {
+					if pbt.Report(t, rec, chk.Name, c, f) {
+						complete = false
+						return
+					}
+				}
+			}
+		})
+	}
 	// HEIF: the Exif item's offset swept across two 4 KiB reader-buffer boundaries, with and without the item's marker
 	if complete && os.Getenv("VERIF_SKIP_ENUM") == "" {
 		idx := 0
